@@ -92,6 +92,17 @@ class TBox:
     kids: list[object] = field(default_factory=list, metadata={"type": "Wildcard", "namespace": "##any"})
 
 
+@dataclass
+class PChoices:
+    """a mixed wildcard WITH CHOICES: named children of primitive types bind to typed values, everything else stays generic"""
+    class Meta:
+        name = "R"
+
+    content: list[object] = field(default_factory=list, metadata={
+        "type": "Wildcard", "namespace": "##any", "mixed": True,
+        "choices": ({"name": "n", "type": int}, {"name": "flag", "type": bool}, {"name": "tbox", "type": TBox})})
+
+
 PLACEMENTS = {"list": PList, "single": PSingle, "mixed": PMixed, "typed-other": PTyped, "local": PLocal}
 
 
@@ -285,12 +296,14 @@ def check_owner_text(ctx):
     # has no slot for its tail, so only MIXED content (which keeps text as items of the list) can hold the text after it
     typed = ["one<tspan>two<b/>x</tspan>three", "<tbox><a/><b>q</b></tbox>tail<tspan/>end", "<tspan><tbox><c/></tbox>in</tspan>out<tbox/>"]
     xctx = XmlContext()
-    for body in bodies + typed:
+    # children that are CHOICES of the wildcard with primitive types (typed values, no generic element around them)
+    choice = ["lead<n>5</n>tail1<a/>tail2", "<n>5</n>x<n>6</n>y<flag>true</flag>z", "<a>q</a>p<n>7</n>r<tbox><c/></tbox>s<n>8</n>"]
+    for body in bodies + typed + choice:
         text = f"<R>{body}</R>"
         want = infoset.canon(infoset.parse(text), strip_ws_between_children=False)["content"]
-        for placement in (("mixed",) if body in typed else ("list", "mixed")):
+        for placement in (("mixed-choices",) if body in choice else ("mixed", "mixed-choices") if body in typed else ("list", "mixed", "mixed-choices")):
             for h in ("native", "lxml"):
-                st, obj, _w = hb.parse(text, h, xctx, PLACEMENTS[placement], "str", ParserConfig())
+                st, obj, _w = hb.parse(text, h, xctx, {**PLACEMENTS, "mixed-choices": PChoices}[placement], "str", ParserConfig())
                 info = {"text": text, "handler": h, "placement": placement}
                 if st != "ok":
                     ctx.case(("owner-text", body, placement, h))
